@@ -1,0 +1,34 @@
+//go:build verif
+
+// Package verifhook is the single instrumentation point used by the external
+// verification harness. With the build tag "verif" every call site reports a
+// named point (a linearization point, a yield point or a file-system failpoint)
+// to a gate function installed by the harness; without the tag At is empty.
+package verifhook
+
+import "sync/atomic"
+
+// Gate receives the point name and cheap scalar arguments. It may block the
+// caller (steered scheduling), record the event, or take a crash image.
+type Gate func(point string, args ...any)
+
+var gate atomic.Pointer[Gate]
+
+// Enabled reports whether the package was built with the verif tag.
+const Enabled = true
+
+// SetGate installs (or, with nil, removes) the gate.
+func SetGate(g Gate) {
+	if g == nil {
+		gate.Store(nil)
+		return
+	}
+	gate.Store(&g)
+}
+
+// At reports that the calling goroutine reached point.
+func At(point string, args ...any) {
+	if g := gate.Load(); g != nil {
+		(*g)(point, args...)
+	}
+}
